@@ -122,5 +122,17 @@ func VerifC04Resolve() {
 	zzverif.Assert(w.b.GetCurrentRevision() == rev, "a later write becomes readable")
 	_ = val
 	w.checkGet(key, 0)
+	// ... also 100000 revisions later, when the sequencer comes back to the slots of the pending-event
+	// ring used above (it trusts whatever it finds in slot (readable+1) mod 100000). The numbering is
+	// moved forward the way a follower's revision sync or a leader change moves it.
+	for f := w.base + 1; f <= w.dealt; f++ {
+		w.b.SetCurrentRevision(f + watchersChanCapacity - 1)
+		zzverif.WaitIdle()
+		zzverif.Assert(w.b.GetCurrentRevision() == f+watchersChanCapacity-1, "the readable revision does not fall back when the pending-event ring wraps onto the slot of an earlier request")
+	}
+	w.dealt += watchersChanCapacity - 1
+	rev = w.create("wrapped", vNames[2])
+	zzverif.WaitIdle()
+	zzverif.Assert(w.b.GetCurrentRevision() == rev, "a write issued after the ring wrapped becomes readable")
 	zzverif.Cover("done")
 }
